@@ -79,6 +79,7 @@ type E1 struct {
 	Rejected    int64
 	Panics      int64
 	DupHits     int64
+	PrunedViolating int64
 	MaxDepthDone int
 	ProbedLeaves bool
 	Capped      bool
@@ -134,6 +135,7 @@ func applyEnd(m *Model, op Op, frags map[string]*Fragment) {
 func hashKey(s string) [20]byte { return sha1.Sum([]byte(s)) }
 
 type taskResult struct {
+	violated bool
 	key      [20]byte
 	accepted bool
 	n        *node
@@ -242,6 +244,12 @@ func (e *E1) Run() error {
 			if r.probe {
 				continue
 			}
+			if r.violated {
+				// a state reached through a violating step is not extended: everything after it would only
+				// repeat the consequences of the first violation (counterexamples stay minimal)
+				e.PrunedViolating++
+				continue
+			}
 			if seen[r.key] {
 				e.DupHits++
 				continue
@@ -311,6 +319,7 @@ func (e *E1) runTask(cc cache.Client, n *node, op Op, probe bool) (res taskResul
 	}
 	step := &Step{Init: n.init, Hist: n.hist, Op: op, Probe: probe, W: w, ModelPre: m, ModelPost: mpost, Pre: pre, Post: post, Out: out, Accepted: accepted, E: e, CC: cc}
 	for _, v := range e.Checker.Check(step) {
+		res.violated = true
 		v.Engine = "E1-history-bfs"
 		if v.Case == nil {
 			v.Case = step.Case()
@@ -367,6 +376,7 @@ func (e *E1) Coverage() map[string]any {
 		"rejected":                      e.Rejected,
 		"panics":                        e.Panics,
 		"duplicate_state_hits":          e.DupHits,
+		"successors_not_extended_after_violation": e.PrunedViolating,
 		"distinct_outcomes":             n,
 		"outcome_classes":               classes,
 		"alphabet_size":                 len(e.Alphabet),
